@@ -551,6 +551,7 @@ PROGRAMS = [
         (None, None, "integer :: Idx, j"),
         (None, None, "character(len=20) :: Str"),
         (None, None, "Str = 'it''s ! not & a comment'"),
+        (None, None, "Str = \"it's\" // 'ab ! cd' // \"e'f\""),
         (10, None, "Idx = j + 1"),
         (None, "outer", "do Idx = 1, 10"),
         (None, None, 'print *, "a;b", Idx'),
@@ -659,7 +660,7 @@ def free_layout(stmts, rng, features, first_indent_max=2):
             for _ in range(rng.randint(1, 2)):
                 if rng.random() < 0.5:
                     c = " " * (rng.randint(6, 9) if "margin" in features else rng.randint(0, 4)) \
-                        + rng.choice(["! note %d", "! note %d", "!$omp note %d", "!dir$ note %d"]) % len(lines)
+                        + rng.choice(["! note %d", "! note %d", "!$omp note %d", "!dir$ note %d", "! see C:\\dir%d\\"]) % len(lines)
                     lines.append(c)
                     items.append(Cm(c.lstrip(), len(lines)))
                 else:
@@ -700,12 +701,22 @@ def free_layout(stmts, rng, features, first_indent_max=2):
             b = token_boundaries(text)
             if b:
                 cuts = sorted(rng.sample(b, min(len(b), rng.randint(1, 3))))
+            if (label is not None or name) and "semicolon" not in features and rng.random() < 0.5:
+                cuts = sorted(set(cuts) | {0})          # `10 &` / `outer: &` and the statement on the next line
+            if "split-both" in features:
+                inside = [p for p in range(1, len(text)) if in_literal(text, p)]
+                if inside:
+                    cuts = sorted(set(cuts) | set(rng.sample(inside, min(len(inside), 2))))
         if "split-token" in features and rng.random() < 0.7 and len(text) > 2:
             cuts = sorted(rng.sample(range(1, len(text)), min(len(text) - 1, rng.randint(1, 2))))
         if "split-literal" in features:
             inside = [p for p in range(1, len(text)) if in_literal(text, p)]
             if inside:
                 cuts = sorted(rng.sample(inside, min(len(inside), rng.randint(1, 2))))
+                # the places where a reader is most easily confused: directly in front of / behind a '!', '&', ';' or quote in a literal
+                hot = [p for p in inside if text[p] in "!&;'\"" or text[p - 1] in "!&;"]
+                if hot and rng.random() < 0.7:
+                    cuts = sorted(set(cuts[:1]) | {rng.choice(hot)})
         segs, prev = [], 0
         for c in cuts:
             segs.append((prev, c))
@@ -729,6 +740,8 @@ def free_layout(stmts, rng, features, first_indent_max=2):
                     tail_amp = tail_amp.rstrip() + "   "
             phys = (indent if si == 0 else " " * (rng.randint(6, 12) if "margin" in features else rng.randint(0, 10))) \
                 + (head(label, name) if si == 0 else "") + lead + seg + tail_amp
+            if "tabs" in features:
+                phys = "\t" + phys.lstrip(" ") if phys.startswith(" ") or si > 0 or True else phys
             if "trailing" in features and rng.random() < 0.4 and not (si < len(segs) - 1 and in_literal(text, b_)):
                 c = "! t%d %s" % (si, rng.choice(["", "it's", "'q'", "& x", "; y"]))
                 c = c.rstrip()
@@ -824,6 +837,10 @@ def fixed_layout(stmts, rng, features, hidden=None):
             b = token_boundaries(text)
             if b:
                 cuts = sorted(rng.sample(b, min(len(b), rng.randint(1, 3))))
+        if "split-both" in features:
+            inside = [p for p in range(1, len(text)) if in_literal(text, p) and text[p - 1] not in " &"]
+            if inside:
+                cuts = sorted(set(cuts) | set(rng.sample(inside, min(len(inside), 2))))
         if "split-literal" in features:
             # the reader drops trailing blanks of a physical line, so a literal is not cut behind a blank
             # (nor behind an '&': a line that ends with '&' is the detector's documented sign of free form)
@@ -981,7 +998,7 @@ def with_directives(lines, items, rng, n_dir, fixed=False, at_top=None):
     return out_lines, out_items
 
 
-def include_layout(stmts, rng, features, nested=False, fixed_files=False, missing_first=False):
+def include_layout(stmts, rng, features, nested=False, fixed_files=False, missing_first=False, header=0):
     """free form with a run of whole statements moved into a file of the (virtual) include directory `inc`; a second directory
     `other`, searched later, holds a file of the same name with different content.  Returns (lines, items, files, include_dirs)."""
     n = len(stmts)
@@ -992,6 +1009,11 @@ def include_layout(stmts, rng, features, nested=False, fixed_files=False, missin
     if fixed_files:
         ffeat = {f for f in features if f in ("split", "between", "trailing", "before")} | {"labels"}
         lay = lambda st: fixed_layout(st, rng, ffeat)
+        inc_deep = "      include 'deep.inc'"
+    elif header:
+        # behind a long header the code keeps a six-blank margin: its only sign of free form is the '&' at the end of its lines
+        # (no trailing comments: a '&' with a comment behind it is not the last character of its line)
+        lay = lambda st: free_layout(st, rng, {"margin", "split", "lead", "before"})
         inc_deep = "      include 'deep.inc'"
     else:
         lay = lambda st: free_layout(st, rng, features, first_indent_max=2)
@@ -1005,6 +1027,14 @@ def include_layout(stmts, rng, features, nested=False, fixed_files=False, missin
         head_lines, head_items = lay(inner[:k])
         inner_lines = head_lines + [inc_deep]
         inner_items = head_items + deep_items
+    if header:
+        # a long notice in front of the code of the included file (more than `header` characters of comment lines)
+        hdr = []
+        while sum(len(h) + 1 for h in hdr) <= header:
+            hdr.append("! notice %03d %s" % (len(hdr), "-" * 60))
+        inner_items = [Cm(h, k + 1) for k, h in enumerate(hdr)] + \
+            [(it[:2] + ((it[2][0] + len(hdr), it[2][1] + len(hdr)),) + it[3:]) if not (nested and it in deep_items) else it for it in inner_items]
+        inner_lines = hdr + inner_lines
     files["inc/part.inc"] = "\n".join(inner_lines) + "\n"
     files["other/part.inc"] = "wrong = 1\n"
     pre_lines, pre_items = free_layout(stmts[:a], rng, features)
@@ -1034,6 +1064,8 @@ FREE_FEATURES = [
     ("';' with trailing comments", {"semicolon", "trailing", "before"}),
     ("everything at once", {"split", "lead", "between", "trailing", "indent", "before", "semicolon"}),
     ("six-blank margin, '&' followed by blanks", {"split", "lead", "between", "before", "margin"}),
+    ("continuation at token boundaries and inside literals, trailing comments", {"split", "split-both", "lead", "trailing"}),
+    ("every line indented with a tab, continuation lines", {"split", "lead", "tabs"}),
 ]
 FIXED_FEATURES = [
     ("plain", set()), ("label placement within columns 1-5", {"labels"}), ("'0' in column 6 of an initial line", {"zero", "labels"}),
@@ -1042,6 +1074,7 @@ FIXED_FEATURES = [
     ("character literal continued over lines", {"split-literal"}),
     ("literal continued with comment lines between", {"split-literal", "between"}), ("trailing comments", {"trailing"}),
     ("everything at once", {"split", "trailing", "between", "before", "labels", "zero", "indent"}),
+    ("continuation at token boundaries and inside literals, trailing comments", {"split", "split-both", "trailing"}),
 ]
 
 
@@ -1116,6 +1149,11 @@ class Runner:
             r.instances += 1
             r.ob(False)
             self.fail(case, "raises", "raises %s" % err.exc_type)
+            return None
+        except RecursionError:
+            if not self.dead:
+                r.error("the reader recurses too deeply for the evaluator on %r" % _show(case.source, 3))
+            self.dead = True
             return None
 
     def fail(self, case, what, text):
@@ -1228,6 +1266,57 @@ def stream_rule(m, rid, tier):
                     r.ob(end is None)
                     if end is not None:
                         run.fail(case, "end", "get_item() after the last item gives %r, not None" % (end,))
+    # a reader created with the default option (comments ignored) whose consumer asks for comments per call, reads one item ahead
+    # and restores: what it pushed back it gets again (the stream fparser1 sees)
+    if not run.dead:
+        rng = _rng("stream", "override")
+        lines, items = free_layout(PROGRAMS[0], rng, {"before", "trailing", "split", "between"})
+        case = Case("override/put-back", lines, items, {}, what="free form, comments asked for per call, every item pushed back once")
+        try:
+            w = run.world or World(m)
+            run.world = w
+            w.files = {}
+            w.ev.steps = 0
+            rd = make_reader(w, case.source)          # ignore_comments defaults to True
+            got = []
+            for _ in range(600):
+                try:
+                    it = rd.get(w.ev, "next")(ignore_comments=False)
+                except PE.PyRaise as err:
+                    if err.exc_type == "StopIteration":
+                        break
+                    raise
+                rd.get(w.ev, "put_item")(it)
+                again = rd.get(w.ev, "get_item")(ignore_comments=False)
+                r.instances += 1
+                r.ob(again is it)
+                if again is not it:
+                    run.fail(case, "put-back-override", "the item %r was pushed back with put_item() and get_item(ignore_comments=False) "
+                             "delivers %r instead" % (summarise(w, it), summarise(w, again)))
+                    break
+                got.append(summarise(w, it))
+            else:
+                raise PE.Unsupported("the reader does not end")
+            run.expect(case, items, got=got)
+        except PE.Unsupported as err:
+            r.error("the reader cannot be interpreted statically (%s)" % err)
+        except PE.PyRaise as err:
+            r.instances += 1
+            r.ob(False)
+            run.fail(case, "raises", "raises %s" % err.exc_type)
+    # strict fixed form (Fortran 77 cards): columns 7-72 belong to the statement, 73-80 hold a sequence number, on continuation cards too
+    def card(text, seq, label="", cont=" "):
+        return "%-72s%08d" % ("%-5s%s%s" % (label, cont, text), seq)
+    lines = [card("subroutine Foo(a, b, c)", 10), card("a = b", 20, label="10"), card("+ c", 30, cont="&"), card("+ 1", 40, cont="1"),
+             card("call Bar('x y', a)", 50), card("end", 60)]
+    items = [L("subroutine Foo(a, b, c)", (1, 1)), L("a = b+ c+ 1", (2, 4), 10), L("call Bar('x y', a)", (5, 5)), L("end", (6, 6))]
+    case = Case("f77-cards", lines, items, {"ignore_comments": False}, mode="f77", what="strict fixed form with sequence numbers in columns 73-80")
+    run.expect(case, items)
+    # ... and a comment card behind a statement (known finding F71: the look-ahead for continuation cards swallows it)
+    lines = [card("x = 1", 10), "C a comment card", card("y = 2", 20)]
+    items = [L("x = 1", (1, 1)), Cm("C a comment card", 2), L("y = 2", (3, 3))]
+    case = Case("f77-comment-card", lines, items, {"ignore_comments": False}, mode="f77", what="strict fixed form, a comment card behind a statement")
+    run.expect(case, items)
     # the reader is told the source is fixed form; a statement that starts in the label field makes it go on in free form, and
     # that line is already delivered as the free-form statement it is
     lines = ["      subroutine Foo(n)", "      integer n, i", "      do 10 i = 1, n", "        n = n + i", " 10 continue", "      end"]
@@ -1319,7 +1408,7 @@ def errline_rule(m, rid, tier):
                         if k >= len(want):
                             break
                         last = want[k][2][1]
-                        if lc != last or quoted != lines[last - 1].rstrip():
+                        if lc != last or quoted != lines[last - 1].expandtabs().rstrip():
                             bad = (k, s_, lc, quoted, last)
                             break
                     r.ob(bad is None and len(seen) == len(want))
@@ -1510,6 +1599,14 @@ def include_rule(m, rid, tier):
                                 files=files, what="%s%s, include files in fixed form" % (title, ", nested include" if nested else ""))
                     if run.expect(case, items) is None and run.dead:
                         return r
+                    # a long notice (more than 4 kB / 8 kB of comment lines) in front of the code of the included file
+                    if not nested:
+                        rng = _rng("include-header", rep, pi, title)
+                        lines, items, files, dirs = include_layout(prog, rng, feats, False, header=(4200 if rep % 2 == 0 else 8300))
+                        case = Case("%s/long-header" % title, lines, items, {"ignore_comments": True, "include_dirs": dirs}, files=files,
+                                    what="%s, the included file begins with a long comment header" % title)
+                        if run.expect(case, [i for i in items if i[0] != "Comment"]) is None and run.dead:
+                            return r
                     # an INCLUDE that cannot be resolved directly in front, and a consumer that reads one item ahead and restores
                     rng = _rng("include-ahead", rep, pi, title, nested)
                     lines, items, files, dirs = include_layout(prog, rng, feats, nested, missing_first=True)
